@@ -792,6 +792,19 @@ impl Check {
         for (k, v) in self.extra_cov.iter() {
             cov.insert(k.clone(), v.clone());
         }
+        // coverage of companion binaries of the same check (VERIF_MERGE_EVIDENCE="key=path,key=path")
+        if let Ok(spec) = std::env::var("VERIF_MERGE_EVIDENCE") {
+            for item in spec.split(',') {
+                if let Some((k, path)) = item.split_once('=') {
+                    match std::fs::read_to_string(path).ok().and_then(|t| serde_json::from_str::<Value>(&t).ok()) {
+                        Some(v) => {
+                            cov.insert(k.to_string(), v["coverage"].clone());
+                        }
+                        None => self.machinery_errors.push(format!("companion evidence {path} missing or unreadable")),
+                    }
+                }
+            }
+        }
         if self.agg.evaluations > 0 && self.agg.err_returns * 2 > self.agg.evaluations {
             cov.insert("vacuity_warning".into(), json!("more than half of the cases were refused by the subject"));
             eprintln!("vacuity_warning: more than half of the cases were refused");
